@@ -1,13 +1,13 @@
 package main
 
 import (
-	"sync"
-	"go/types"
 	"flag"
 	"fmt"
+	"go/types"
 	"os"
 	"sort"
 	"strings"
+	"sync"
 )
 
 func usage() {
